@@ -151,16 +151,15 @@ func (d *Uint32SizedArrayT[T]) Unmarshal(r io.Reader) error {
 	if err := binary.Read(r, binary.LittleEndian, &size); err != nil {
 		return fmt.Errorf("failed to read Uint32SizedArrayT %T sized %d: %v", []T{}, size, err)
 	}
-	if size == 0 {
-		d.Array = nil
-		return nil
-	}
-	d.Array = make([]T, size)
-	for i := range d.Array {
-		d.Array[i] = d.Array[i].Create().(T)
-		if err := d.Array[i].Unmarshal(r); err != nil {
+	// The count is untrusted: the array grows with the elements actually read.
+	d.Array = nil
+	for i := uint32(0); i < size; i++ {
+		var elem T
+		elem = elem.Create().(T)
+		if err := elem.Unmarshal(r); err != nil {
 			return fmt.Errorf("failed to unmarshal %T element %d: %v", []T{}, i, err)
 		}
+		d.Array = append(d.Array, elem)
 	}
 	return nil
 }
